@@ -3,31 +3,51 @@
 (* The node and the network: ISAAC voting consensus of spikeekips/mitum as *)
 (* the state handlers run it (isaac/states: consensus.go,                  *)
 (* voteproof_handler.go, base_ballot_handler.go, ballotbox.go, syncing.go, *)
-(* isaac/proposal_processors.go).  This is the module in which the         *)
-(* per-subsystem properties are composed:                                  *)
-(*   C01/C02 tally and required count   (Tally!Result, Req)                *)
+(* joining.go; isaac/proposal_processors.go, proposal_selector.go,         *)
+(* proposal_maker.go).  This is the module in which the per-subsystem      *)
+(* properties are composed:                                                *)
+(*   C01/C02 tally and required count   (MajFacts / IsDraw, Req)           *)
 (*   C03 agreement of voteproofs        (VoteproofAgreement)               *)
 (*   C04 ballot box emits sound voteproofs (Count: guard = tally of the    *)
-(*       accepted ballots of exactly that stage point)                     *)
-(*   C06 monotone progress              (LastMonotone)                     *)
+(*       ballots accepted for exactly that stage point)                    *)
+(*   C06 monotone progress              (LastMonotone, BoxLastMonotone)    *)
+(*   C07 one proposer per point, the same at every node (Proposer)         *)
 (*   C08 no honest equivocation         (NoHonestEquivocation)             *)
 (*   C10 deterministic block production (Blk is a function)                *)
-(*   C11 save only the agreed manifest, once per height (SaveBlock guard,  *)
-(*       SavedOnlyAgreed)                                                  *)
-(*   C38 one proposal per position by an honest proposer                   *)
+(*   C11 save only the agreed manifest, once per height (React, ACCEPT     *)
+(*       branch; SavedOnlyAgreed)                                          *)
+(*   C38 one proposal per maker and position (OneProposalPerMaker)         *)
 (* and chain agreement between honest nodes follows (ChainAgreement).      *)
 (*                                                                         *)
-(* One action per step of the handlers: broadcasting a ballot, the ballot  *)
-(* box accepting a ballot, the ballot box counting a stage point (emits a  *)
-(* voteproof), the handler reacting to a new voteproof (process proposal / *)
-(* save block / next round / move to syncing), the syncing handler         *)
-(* importing a block.  Byzantine nodes may broadcast anything.             *)
+(* One action per step the code makes visible:                             *)
+(*   MakeProposal / MakeFallbackProposal   ProposalMaker (the selector     *)
+(*       falls back to other nodes when the proposer does not answer)      *)
+(*   SendINIT        prepareNextBlockBallot / prepareNextRoundBallot       *)
+(*   Receive         Ballotbox.Vote: the ballot is accepted by the box;    *)
+(*                   the voteproof it carries is emitted if it is new      *)
+(*   Count           Ballotbox.countVoterecords: a stage point is tallied, *)
+(*                   the box moves ITS last point and queues the voteproof *)
+(*   Handle          States.newVoteproof -> current handler: moves the     *)
+(*                   handler's last voteproofs and reacts (process the     *)
+(*                   proposal and broadcast ACCEPT / intended not-processed*)
+(*                   ACCEPT / save / next round / move to syncing)         *)
+(*   SyncBlock, SyncDone   syncing handler + syncer                        *)
+(*   SendByz         Byzantine members broadcast anything                  *)
+(* The ballot box's last point (blast) and the handler's last voteproofs   *)
+(* (last) are two objects in the code and two variables here; voteproofs   *)
+(* travel from the first to the second through a queue (vpq).  A voteproof *)
+(* reaches a node only by being counted by its own box or inside a ballot  *)
+(* its box accepts (a ballot that is not new is dropped with what it       *)
+(* carries).                                                               *)
+(*                                                                         *)
 (* Bound to the code by trace validation of an in-process network of real  *)
-(* States (ISAACTrace.tla).                                                *)
+(* isaacstates.States (ISAACTrace.tla, harness/internal/isaacnet).  The    *)
+(* history of this module's corrections against real traces is in          *)
+(* check/isaac.md.                                                         *)
 (***************************************************************************)
 EXTENDS Integers, FiniteSets, Sequences, TLC
 
-CONSTANTS Node,        \* suffrage (fixed in this module; expels: ISAACExpel)
+CONSTANTS Node,        \* suffrage (fixed in this module; expels: Agreement.tla / ISAACExpel)
           Byz,         \* Byzantine nodes, subset of Node
           T10,         \* threshold * 10
           MaxHeight,   \* heights 1..MaxHeight are decided
@@ -46,27 +66,34 @@ Round == 0..MaxRound
 
 (* proposer of a point: deterministic, the same at every node (C07) *)
 NodeSeq == CHOOSE s \in [1..N -> Node] : \A a, b \in 1..N : a # b => s[a] # s[b]
+Idx(n) == CHOOSE k \in 1..N : NodeSeq[k] = n
 Proposer(h, r) == NodeSeq[((h + r) % N) + 1]
 
-(* a proposal is identified by its point and a variant; an honest proposer makes  *)
-(* exactly one (variant 0), a Byzantine proposer may make two                      *)
-Proposal == [h : Height, r : Round, v : {0, 1}]
+(* a proposal is the tuple <<height, round, variant>>: variant 0 is the proposal of the  *)
+(* proposer of the point, 1 a second one by a Byzantine proposer, 10+k the fallback      *)
+(* proposal made by node k when the proposer did not answer (proposal_selector.go)       *)
+FallbackV(n) == 10 + Idx(n)
 (* C10: the block produced from a proposal on top of a previous block is a function *)
-Blk(prop, prev) == <<prop.h, prop.r, prop.v, prev>>
+Blk(prop, prev) == <<prop[1], prop[2], prop[3], prev>>
 
 INIT == "INIT"
 ACCEPT == "ACCEPT"
+NoVP == [h |-> -1, r |-> 0, s |-> INIT, res |-> "NONE", f |-> <<>>]
+GenesisVP == [h |-> 0, r |-> 0, s |-> ACCEPT, res |-> "MAJORITY", f |-> <<<<0, 0, 0>>, Genesis>>]
 
 VARIABLES
-  msgs,     \* broadcast ballots: [n, h, r, s, f]; f = <<prev, prop>> (INIT) or <<prop, blk>> (ACCEPT)
+  msgs,     \* broadcast ballots [n, h, r, s, f, vp]; f = <<prev, prop>> (INIT) or <<prop, blk>> (ACCEPT);
+            \* vp = the voteproof the ballot carries
   props,    \* proposals made so far
   box,      \* box[i]: ballots accepted by the ballot box of i
-  last,     \* last[i]: [h, r, s, maj] last point of i (LastPoint)
+  blast,    \* blast[i]: last point of the ballot box of i (Ballotbox.LastPoint)
+  vpq,      \* vpq[i]: voteproofs emitted by the box of i, not yet taken by the handler
+  last,     \* last[i]: [h, r, s, maj] cap of the handler's last voteproofs (LastVoteproofsHandler)
   chain,    \* chain[i]: sequence of saved blocks, chain[i][h] = block of height h
   proc,     \* proc[i]: [h, r, prop, blk] processed proposal not yet saved, or <<>> (ProposalProcessors)
-  mode,     \* "consensus" | "syncing"
+  mode,     \* "consensus" (JOINING / CONSENSUS) | "syncing"
   vps       \* history: every voteproof formed anywhere [h, r, s, res, f]
-vars == <<msgs, props, box, last, chain, proc, mode, vps>>
+vars == <<msgs, props, box, blast, vpq, last, chain, proc, mode, vps>>
 
 HeadOf(i) == IF Len(chain[i]) = 0 THEN Genesis ELSE chain[i][Len(chain[i])]
 BlockAt(i, h) == IF h = 0 THEN Genesis ELSE chain[i][h]
@@ -74,68 +101,91 @@ BlockAt(i, h) == IF h = 0 THEN Genesis ELSE chain[i][h]
 Zero == [h |-> 0, r |-> 0, s |-> ACCEPT, maj |-> TRUE]   \* "genesis ACCEPT majority"
 
 StageOrd(s) == IF s = INIT THEN 0 ELSE 1
-(* (h, r, s) strictly after (h2, r2, s2) *)
+(* (h, r, s) strictly after the point p *)
 After(h, r, s, p) == \/ h > p.h
                      \/ h = p.h /\ r > p.r
                      \/ h = p.h /\ r = p.r /\ StageOrd(s) > StageOrd(p.s)
-(* LastPoint.IsNewBallot / IsNewVoteproof without the suffrage-confirm clause *)
-IsNewBallot(i, h, r, s) == After(h, r, s, last[i])
-IsNewVP(i, vp) == \/ After(vp.h, vp.r, vp.s, last[i])
-                  \/ /\ vp.h = last[i].h /\ vp.r = last[i].r /\ vp.s = last[i].s
-                     /\ ~last[i].maj /\ vp.res = "MAJORITY"
+(* LastPoint.Before as IsNewBallot / IsNewVoteproof use it, without the suffrage-confirm clause:  *)
+(* a ballot of the stage after a non-majority INIT of the same point is old (the round is over)   *)
+NewBallotAt(p, h, r, s) == /\ After(h, r, s, p)
+                           /\ ~(h = p.h /\ r = p.r /\ p.s = INIT /\ ~p.maj /\ s = ACCEPT)
+NewVPAt(p, vp) == \/ NewBallotAt(p, vp.h, vp.r, vp.s)
+                  \/ /\ vp.h = p.h /\ vp.r = p.r /\ vp.s = p.s
+                     /\ ~p.maj /\ vp.res = "MAJORITY"
+PointOf(vp) == [h |-> vp.h, r |-> vp.r, s |-> vp.s, maj |-> vp.res = "MAJORITY"]
 
 Init == /\ msgs = {} /\ props = {}
         /\ box = [i \in Node |-> {}]
+        /\ blast = [i \in Node |-> Zero]
+        /\ vpq = [i \in Node |-> <<>>]
         /\ last = [i \in Node |-> Zero]
         /\ chain = [i \in Node |-> <<>>]
         /\ proc = [i \in Node |-> <<>>]
         /\ mode = [i \in Node |-> "consensus"]
-        /\ vps = {}
+        /\ vps = {GenesisVP}
 
 -----------------------------------------------------------------------------
-(* proposals (ProposalMaker, C38) *)
+(* proposals (ProposalMaker, C38; BaseProposalSelector) *)
 MakeProposal(n, h, r, v) ==
   /\ Proposer(h, r) = n
-  /\ [h |-> h, r |-> r, v |-> v] \notin props
+  /\ v \in {0, 1}
+  /\ <<h, r, v>> \notin props
   /\ n \in Honest => v = 0
-  /\ props' = props \cup {[h |-> h, r |-> r, v |-> v]}
-  /\ UNCHANGED <<msgs, box, last, chain, proc, mode, vps>>
+  /\ props' = props \cup {<<h, r, v>>}
+  /\ UNCHANGED <<msgs, box, blast, vpq, last, chain, proc, mode, vps>>
+
+(* the proposer did not answer in time: the selector asks the next node, finally the local maker *)
+MakeFallbackProposal(n, h, r) ==
+  /\ n \in Honest /\ Proposer(h, r) # n
+  /\ <<h, r, FallbackV(n)>> \notin props
+  /\ props' = props \cup {<<h, r, FallbackV(n)>>}
+  /\ UNCHANGED <<msgs, box, blast, vpq, last, chain, proc, mode, vps>>
 
 Sent(n, h, r, s) == {m \in msgs : m.n = n /\ m.h = h /\ m.r = r /\ m.s = s}
 
+(* the voteproof that justifies the position `last` of node i *)
+VPAt(p) == {vp \in vps : vp.h = p.h /\ vp.r = p.r /\ vp.s = p.s /\ (vp.res = "MAJORITY") = p.maj}
+
 (* an honest node broadcasts its INIT ballot for (h, r):                          *)
 (*  round 0 after the ACCEPT majority of h-1 (nextBlock), round r+1 after a draw  *)
-(*  or non-majority at round r (nextRound)                                        *)
+(*  or non-majority at round r (nextRound); the ballot carries that voteproof     *)
 SendINIT(i, h, r, prop) ==
   /\ i \in Honest /\ mode[i] = "consensus"
   /\ Sent(i, h, r, INIT) = {}
   /\ h = Len(chain[i]) + 1
-  /\ prop \in props /\ prop.h = h /\ prop.r = r
+  /\ prop \in props /\ prop[1] = h /\ prop[2] = r
   /\ \/ r = 0 /\ last[i].h = h - 1 /\ last[i].s = ACCEPT /\ last[i].maj
      \/ r > 0 /\ last[i].h = h /\ last[i].r = r - 1 /\ ~last[i].maj
-  /\ msgs' = msgs \cup {[n |-> i, h |-> h, r |-> r, s |-> INIT, f |-> <<HeadOf(i), prop>>]}
-  /\ UNCHANGED <<props, box, last, chain, proc, mode, vps>>
+  /\ \E vp \in VPAt(last[i]) :
+       msgs' = msgs \cup {[n |-> i, h |-> h, r |-> r, s |-> INIT, f |-> <<HeadOf(i), prop>>, vp |-> vp]}
+  /\ UNCHANGED <<props, box, blast, vpq, last, chain, proc, mode, vps>>
 
-(* Byzantine nodes broadcast any ballot over known proposals and blocks *)
+(* Byzantine nodes broadcast any ballot over known proposals and blocks, carrying any voteproof *)
 ByzFacts(h, r, s) ==
-  LET ps == {p \in props : p.h = h /\ p.r = r}
+  LET ps == {p \in props : p[1] = h /\ p[2] = r}
       prevs == {Genesis} \cup {BlockAt(j, h - 1) : j \in {k \in Node : Len(chain[k]) >= h - 1 /\ h > 1}}
   IN IF s = INIT THEN {<<pv, p>> : pv \in prevs, p \in ps}
      ELSE {<<p, Blk(p, pv)>> : p \in ps, pv \in prevs} \cup {<<p, NotProcessed>> : p \in ps}
-SendByz(b, h, r, s, f) ==
+SendByz(b, h, r, s, f, vp) ==
   /\ b \in Byz
   /\ f \in ByzFacts(h, r, s)
-  /\ [n |-> b, h |-> h, r |-> r, s |-> s, f |-> f] \notin msgs
-  /\ msgs' = msgs \cup {[n |-> b, h |-> h, r |-> r, s |-> s, f |-> f]}
-  /\ UNCHANGED <<props, box, last, chain, proc, mode, vps>>
+  /\ vp \in vps
+  /\ [n |-> b, h |-> h, r |-> r, s |-> s, f |-> f, vp |-> vp] \notin msgs
+  /\ msgs' = msgs \cup {[n |-> b, h |-> h, r |-> r, s |-> s, f |-> f, vp |-> vp]}
+  /\ UNCHANGED <<props, box, blast, vpq, last, chain, proc, mode, vps>>
 
-(* Ballotbox.Vote: a ballot is accepted when its point is new and the box has no ballot *)
-(* of that node for that stage point yet                                                *)
+(* Ballotbox.Vote: a ballot is accepted when its point is new for the box and the box has no  *)
+(* ballot of that node for that stage point yet; the voteproof it carries is emitted when it   *)
+(* is new for the box (Ballotbox.vote -> newVoteproof)                                         *)
 Receive(i, m) ==
   /\ i \in Honest /\ m \in msgs
-  /\ IsNewBallot(i, m.h, m.r, m.s)
+  /\ NewBallotAt(blast[i], m.h, m.r, m.s)
   /\ ~\E x \in box[i] : x.n = m.n /\ x.h = m.h /\ x.r = m.r /\ x.s = m.s
   /\ box' = [box EXCEPT ![i] = @ \cup {m}]
+  /\ IF NewVPAt(blast[i], m.vp)
+     THEN /\ blast' = [blast EXCEPT ![i] = PointOf(m.vp)]
+          /\ vpq' = [vpq EXCEPT ![i] = Append(@, m.vp)]
+     ELSE UNCHANGED <<blast, vpq>>
   /\ UNCHANGED <<msgs, props, last, chain, proc, mode, vps>>
 
 -----------------------------------------------------------------------------
@@ -148,25 +198,45 @@ IsDraw(V) == /\ V # {} /\ MajFacts(V) = {}
              /\ \A f \in FactsOf(V) : CountOf(V, f) + (N - Cardinality(V)) < Th
              /\ N - Cardinality(V) < Th
 
-(* the handler's reaction to a new voteproof (voteproof_handler.go) *)
-React(i, vp) ==
+(* Ballotbox.countVoterecords: emits the voteproof of a stage point from the ballots accepted for *)
+(* it (C04), moves the box's last point and hands the voteproof to the state machine              *)
+Emit(i, vp) ==
+  /\ NewVPAt(blast[i], vp)
+  /\ vps' = vps \cup {vp}
+  /\ blast' = [blast EXCEPT ![i] = PointOf(vp)]
+  /\ vpq' = [vpq EXCEPT ![i] = Append(@, vp)]
+Count(i, h, r, s) ==
+  /\ i \in Honest
+  /\ LET V == Votes(i, h, r, s) IN
+     \/ \E f \in MajFacts(V) : Emit(i, [h |-> h, r |-> r, s |-> s, res |-> "MAJORITY", f |-> f])
+     \/ IsDraw(V) /\ Emit(i, [h |-> h, r |-> r, s |-> s, res |-> "DRAW", f |-> <<>>])
+  /\ UNCHANGED <<msgs, props, box, last, chain, proc, mode>>
+
+(* the handler's reaction to a new voteproof (voteproof_handler.go); ok = the proposal could be *)
+(* fetched and processed (otherwise the intended wrong ACCEPT ballot: wrongACCEPTBallot)        *)
+React(i, vp, ok) ==
   LET h == vp.h  r == vp.r IN
-  /\ last' = [last EXCEPT ![i] = [h |-> h, r |-> r, s |-> vp.s, maj |-> vp.res = "MAJORITY"]]
+  /\ last' = [last EXCEPT ![i] = PointOf(vp)]
   /\ IF vp.res # "MAJORITY" THEN                              \* draw: nextRound (SendINIT r+1 becomes enabled)
           /\ IF h > Len(chain[i]) + 1 THEN mode' = [mode EXCEPT ![i] = "syncing"] ELSE UNCHANGED mode
           /\ UNCHANGED <<msgs, chain, proc>>
      ELSE IF vp.s = INIT THEN
-          IF h > Len(chain[i]) + 1 \/ vp.f[1] # BlockAt(i, h - 1)
+          IF h > Len(chain[i]) + 1 \/ (h = Len(chain[i]) + 1 /\ vp.f[1] # HeadOf(i))
           THEN /\ mode' = [mode EXCEPT ![i] = "syncing"]     \* higher height / previous block differs
                /\ UNCHANGED <<msgs, chain, proc>>
           ELSE IF h <= Len(chain[i]) THEN UNCHANGED <<msgs, chain, proc, mode>>
-          ELSE \* process the proposal, broadcast the ACCEPT ballot with the computed manifest
+          ELSE IF ok THEN \* process the proposal, broadcast the ACCEPT ballot with the computed manifest
                LET blk == Blk(vp.f[2], vp.f[1]) IN
                /\ proc' = [proc EXCEPT ![i] = [h |-> h, r |-> r, prop |-> vp.f[2], blk |-> blk]]
                /\ msgs' = IF Sent(i, h, r, ACCEPT) = {}
-                          THEN msgs \cup {[n |-> i, h |-> h, r |-> r, s |-> ACCEPT, f |-> <<vp.f[2], blk>>]}
+                          THEN msgs \cup {[n |-> i, h |-> h, r |-> r, s |-> ACCEPT, f |-> <<vp.f[2], blk>>, vp |-> vp]}
                           ELSE msgs
                /\ UNCHANGED <<chain, mode>>
+          ELSE \* not processed in time: intended wrong ACCEPT ballot, nothing to save later
+               /\ msgs' = IF Sent(i, h, r, ACCEPT) = {}
+                          THEN msgs \cup {[n |-> i, h |-> h, r |-> r, s |-> ACCEPT, f |-> <<vp.f[2], NotProcessed>>, vp |-> vp]}
+                          ELSE msgs
+               /\ UNCHANGED <<chain, proc, mode>>
      ELSE \* ACCEPT majority: save only the agreed manifest (C11)
           IF /\ h = Len(chain[i]) + 1
              /\ proc[i] # <<>> /\ proc[i].h = h /\ proc[i].prop = vp.f[1] /\ proc[i].blk = vp.f[2]
@@ -178,28 +248,19 @@ React(i, vp) ==
                /\ proc' = [proc EXCEPT ![i] = <<>>]
                /\ UNCHANGED <<msgs, chain>>
 
-(* Ballotbox.Count: emits the voteproof of a stage point from the ballots accepted for it (C04) *)
-Count(i, h, r, s) ==
-  /\ i \in Honest /\ mode[i] = "consensus"
-  /\ LET V == Votes(i, h, r, s) IN
-     \/ \E f \in MajFacts(V) :
-          LET vp == [h |-> h, r |-> r, s |-> s, res |-> "MAJORITY", f |-> f] IN
-          /\ IsNewVP(i, vp) /\ vps' = vps \cup {vp} /\ React(i, vp)
-     \/ /\ IsDraw(V)
-        /\ LET vp == [h |-> h, r |-> r, s |-> s, res |-> "DRAW", f |-> <<>>] IN
-           /\ IsNewVP(i, vp) /\ vps' = vps \cup {vp} /\ React(i, vp)
-  /\ UNCHANGED <<props, box>>
-
-(* a voteproof formed elsewhere reaches i inside a ballot (INIT ballots carry the *)
-(* previous ACCEPT voteproof, ACCEPT ballots the INIT voteproof)                   *)
-Learn(i, vp) ==
-  /\ i \in Honest /\ mode[i] = "consensus"
-  /\ vp \in vps /\ IsNewVP(i, vp)
-  /\ React(i, vp)
-  /\ UNCHANGED <<props, box, vps>>
+(* States.newVoteproof: the next emitted voteproof reaches the current handler; the handler takes *)
+(* it only when it is new for its own last voteproofs (LastVoteproofsHandler.IsNew)               *)
+Handle(i, ok) ==
+  /\ i \in Honest /\ vpq[i] # <<>>
+  /\ vpq' = [vpq EXCEPT ![i] = Tail(@)]
+  /\ LET vp == vpq[i][1] IN
+     IF mode[i] = "consensus" /\ NewVPAt(last[i], vp)
+     THEN React(i, vp, ok)
+     ELSE ok /\ UNCHANGED <<msgs, last, chain, proc, mode>>
+  /\ UNCHANGED <<props, box, blast, vps>>
 
 (* syncing handler: import the next block for which an ACCEPT majority exists;   *)
-(* back to consensus when nothing is left to import                               *)
+(* back to consensus (joining) when nothing is left to import                     *)
 SyncBlock(i) ==
   /\ i \in Honest /\ mode[i] = "syncing"
   /\ \E vp \in vps :
@@ -207,24 +268,35 @@ SyncBlock(i) ==
        /\ vp.f[2] # NotProcessed
        /\ vp.f[2][4] = HeadOf(i)
        /\ chain' = [chain EXCEPT ![i] = Append(@, vp.f[2])]
-       /\ last' = [last EXCEPT ![i] = IF After(vp.h, vp.r, vp.s, @) \/ (vp.h = @.h /\ vp.r = @.r /\ vp.s = @.s)
-                                      THEN [h |-> vp.h, r |-> vp.r, s |-> ACCEPT, maj |-> TRUE] ELSE @]
+       /\ last' = [last EXCEPT ![i] = IF NewVPAt(@, vp) THEN PointOf(vp) ELSE @]
+       /\ blast' = [blast EXCEPT ![i] = IF NewVPAt(@, vp) THEN PointOf(vp) ELSE @]   \* SetLastPointFromVoteproof
   /\ proc' = [proc EXCEPT ![i] = <<>>]
-  /\ UNCHANGED <<msgs, props, box, mode, vps>>
+  /\ UNCHANGED <<msgs, props, box, vpq, mode, vps>>
 SyncDone(i) ==
   /\ i \in Honest /\ mode[i] = "syncing"
   /\ ~\E vp \in vps : vp.s = ACCEPT /\ vp.res = "MAJORITY" /\ vp.h = Len(chain[i]) + 1 /\ vp.f[2] # NotProcessed
   /\ last[i].h <= Len(chain[i])                      \* joining: waits for a voteproof of the next height
   /\ mode' = [mode EXCEPT ![i] = "consensus"]
-  /\ UNCHANGED <<msgs, props, box, last, chain, proc, vps>>
+  /\ UNCHANGED <<msgs, props, box, blast, vpq, last, chain, proc, vps>>
 
 Next ==
   \/ \E n \in Node, h \in Height, r \in Round, v \in {0, 1} : MakeProposal(n, h, r, v)
+  \/ \E n \in Honest, h \in Height, r \in Round : MakeFallbackProposal(n, h, r)
   \/ \E i \in Honest, h \in Height, r \in Round, p \in props : SendINIT(i, h, r, p)
-  \/ \E b \in Byz, h \in Height, r \in Round, s \in {INIT, ACCEPT} : \E f \in ByzFacts(h, r, s) : SendByz(b, h, r, s, f)
+  \/ \E b \in Byz, h \in Height, r \in Round, s \in {INIT, ACCEPT} :
+        \E f \in ByzFacts(h, r, s), vp \in vps : SendByz(b, h, r, s, f, vp)
   \/ \E i \in Honest : \E m \in msgs : Receive(i, m)
   \/ \E i \in Honest, h \in Height, r \in Round, s \in {INIT, ACCEPT} : Count(i, h, r, s)
-  \/ \E i \in Honest : \E vp \in vps : Learn(i, vp)
+  \/ \E i \in Honest, ok \in BOOLEAN : Handle(i, ok)
+  \/ \E i \in Honest : SyncBlock(i) \/ SyncDone(i)
+
+(* the proposer answers and proposals are processed in time: no fallback, no not-processed ballots *)
+NextTimely ==
+  \/ \E n \in Node, h \in Height, r \in Round : MakeProposal(n, h, r, 0)
+  \/ \E i \in Honest, h \in Height, r \in Round, p \in props : SendINIT(i, h, r, p)
+  \/ \E i \in Honest : \E m \in msgs : Receive(i, m)
+  \/ \E i \in Honest, h \in Height, r \in Round, s \in {INIT, ACCEPT} : Count(i, h, r, s)
+  \/ \E i \in Honest : Handle(i, TRUE)
   \/ \E i \in Honest : SyncBlock(i) \/ SyncDone(i)
 
 Fairness ==
@@ -232,16 +304,18 @@ Fairness ==
   /\ \A i \in Honest, h \in Height, r \in Round : WF_vars(\E p \in props : SendINIT(i, h, r, p))
   /\ \A i \in Honest : WF_vars(\E m \in msgs : Receive(i, m))
   /\ \A i \in Honest, h \in Height, r \in Round, s \in {INIT, ACCEPT} : WF_vars(Count(i, h, r, s))
-  /\ \A i \in Honest : WF_vars(\E vp \in vps : Learn(i, vp))
+  /\ \A i \in Honest : WF_vars(Handle(i, TRUE))
   /\ \A i \in Honest : WF_vars(SyncBlock(i)) /\ WF_vars(SyncDone(i))
 
 Spec == Init /\ [][Next]_vars
-FairSpec == Spec /\ Fairness
+TimelySpec == Init /\ [][NextTimely]_vars
+FairSpec == TimelySpec /\ Fairness
 
 -----------------------------------------------------------------------------
 TypeOK ==
   /\ \A m \in msgs : m.n \in Node /\ m.h \in Height /\ m.r \in Round /\ m.s \in {INIT, ACCEPT}
   /\ \A i \in Node : Len(chain[i]) <= MaxHeight /\ mode[i] \in {"consensus", "syncing"}
+  /\ \A i \in Node : Len(vpq[i]) <= 2 * MaxHeight * (MaxRound + 1) + 2
 
 (* C08 *)
 NoHonestEquivocation ==
@@ -252,9 +326,6 @@ NoHonestEquivocation ==
 VoteproofAgreement ==
   Cardinality(Byz) <= F =>
     \A a, b \in vps : (a.res = "MAJORITY" /\ b.res = "MAJORITY" /\ a.h = b.h /\ a.r = b.r /\ a.s = b.s) => a.f = b.f
-
-(* a stage point has at most one result kind... a DRAW and a MAJORITY may coexist only *)
-(* when nodes saw different subsets; both being final is excluded for complete boxes    *)
 
 (* chain agreement between honest nodes *)
 ChainAgreement ==
@@ -269,25 +340,24 @@ SavedOnlyAgreed ==
 ChainLinked ==
   \A i \in Honest : \A h \in 1..Len(chain[i]) : chain[i][h][4] = BlockAt(i, h - 1) /\ chain[i][h][1] = h
 
-(* C06: the last point never moves back (no suffrage-confirm in this module); the height of *)
-(* a chain never decreases and saved blocks are never replaced (C11)                         *)
+(* C06: neither last position ever moves back (no suffrage-confirm in this module); the height *)
+(* of a chain never decreases and saved blocks are never replaced (C11)                         *)
+Forward(p, q) == \/ q = p
+                 \/ After(q.h, q.r, q.s, p)
+                 \/ q.h = p.h /\ q.r = p.r /\ q.s = p.s /\ ~p.maj /\ q.maj
 LastMonotone ==
   [][\A i \in Honest :
-       /\ \/ last'[i] = last[i]
-          \/ After(last'[i].h, last'[i].r, last'[i].s, last[i])
-          \/ /\ last'[i].h = last[i].h /\ last'[i].r = last[i].r /\ last'[i].s = last[i].s
-             /\ ~last[i].maj /\ last'[i].maj
+       /\ Forward(last[i], last'[i])
        /\ Len(chain'[i]) >= Len(chain[i])
        /\ \A h \in 1..Len(chain[i]) : chain'[i][h] = chain[i][h]]_vars
+BoxLastMonotone == [][\A i \in Honest : Forward(blast[i], blast'[i])]_vars
 
-(* C38: an honest proposer has at most one proposal per point *)
+(* C38: the proposer of a point, when honest, has one proposal for it; every honest maker has *)
+(* at most one proposal per point (variant = maker)                                            *)
 OneProposalPerPoint ==
-  \A p, q \in props : (Proposer(p.h, p.r) \in Honest /\ p.h = q.h /\ p.r = q.r) => p = q
+  \A p, q \in props : (Proposer(p[1], p[2]) \in Honest /\ p[1] = q[1] /\ p[2] = q[2] /\ p[3] \in {0, 1} /\ q[3] \in {0, 1}) => p = q
 
-(* liveness (no Byzantine node, fairness): every height is eventually decided everywhere,   *)
-(* provided rounds do not run out - checked with MaxRound large enough for the instance      *)
+(* liveness (no Byzantine node, timely proposals, fairness): the first height is eventually   *)
+(* decided everywhere                                                                          *)
 Progress == Byz = {} => <>(\A i \in Node : Len(chain[i]) >= 1)
-
-(* bound for model checking *)
-Bound == \A i \in Node : last[i].h <= MaxHeight
 =============================================================================
